@@ -160,6 +160,12 @@ def oracle_c01(d):
                 mechanism = ("required state present only in own pool(s) of other workers that have no result for the producer in this run; "
                              "producer never attempted") if others and len(others) == len(holders) else \
                     "required state exists somewhere but not in a listed and permitted location; producer never attempted"
+            elif in_flight and holders and not passed_by and all(
+                    not h.startswith(entry["w"] + ":") and not h.startswith(":") for h in holders):
+                # same hole as above: the residue in another worker's own pool marked the producer finished for everybody while
+                # the worker that does not have it is still producing it
+                mechanism = ("required state present only in own pool(s) of other workers that have no result for the producer in this run; "
+                             "producer still running on a worker without the state")
             elif in_flight:
                 mechanism = "dependant started while its producer was still running"
             elif passed_by:
